@@ -20,9 +20,11 @@ CHECKS = {
              "reported byte, bounded length, context window, degradation) for every line length 0..3L and column at small L, with "
              "termination; at the real limit L=200 every terminal state (quick: all regime boundaries +-3; thorough: all 181k (len,col) pairs) "
              "is executed through the public reporting.Reporter with ascii / tab / multi-byte line contents and the rendered window, ellipses "
-             "and caret are compared with the model.",
-        note="Trusted: TLC, the message parser in harness/cmd/vh/excerpt.go; columns are byte offsets.",
-        technique="TLA+ model (Excerpt.tla) checked by TLC; exhaustive replay of model states into reporting.Reporter",
+             "and caret are compared with the model (ascii, tabs, 2-byte runes, CRLF). ReporterCache.tla models the line cache one Reporter keeps "
+             "between diagnostics; every history of <=3 (quick) / <=4 (thorough) reports on two files is replayed through one real Reporter "
+             "(window, context text, byte-identity with a fresh Reporter, number of ReadFile calls).",
+        note="Trusted: TLC, the message parser in harness/cmd/vh/excerpt.go and reporterseq.go; columns are byte offsets.",
+        technique="TLA+ models (Excerpt.tla, ReporterCache.tla) checked by TLC; exhaustive replay of model states and histories into reporting.Reporter",
         design="5/C19"),
     "C01": dict(
         text="TLC checks that the declaration-by-declaration walk of the immutable checker (context reset on leaving a declaration) "
@@ -37,9 +39,10 @@ CHECKS = {
     "C02": dict(
         text="Same construction as C01 for Constructor.tla: single containers (8 kinds incl. package-level declarations x 10 instantiation forms x "
              "11 nestings x all constructor-list spellings x 2 packages), sequences of 2/3 containers over 1-2 files, all type spellings; every "
-             "emitted scenario replayed into the real analyzers, a sample through the real binary and go vet.",
+             "emitted scenario replayed into the real analyzers, a sample through the real binary and go vet. Registry.tla models the "
+             "constructor index itself (util.TypeAssociationRegistry / util.TypesMap); every history of <=3/4 Add calls is replayed through the real structures.",
         note="Trusted: TLC, lib/gen_imm.py, the in-process driver; trailing comma in the list and methods named like a constructor are not generated.",
-        technique="TLA+ model (Constructor.tla) checked by TLC; TLC-enumerated programs replayed into the real analyzers (in-process, binary, go vet)",
+        technique="TLA+ models (Constructor.tla, Registry.tla) checked by TLC; TLC-enumerated programs and index histories replayed into the real analyzers / structures (in-process, binary, go vet)",
         design="5/C02"),
     "C03": dict(
         text="TLC checks that the walk with a per-file reported set keyed by (package, type) and the skip of @testonly declarations and "
@@ -117,7 +120,8 @@ CHECKS = {
              "the schedule-free function L1 and that the configuration cache is written once. Behaviours sampled by TLC's simulator are forced onto "
              "the real parallel checker driver through the blocking Run wrapper on a race-enabled build; diagnostics are compared and the recorded "
              "trace is validated by PipelineTrace; plus parallel stress under the race detector and black-box runs of the unmodified binary "
-             "(GOMAXPROCS, -debug=p, permuted arguments, sub-run-sets with test variants) compared per package with a reference run.",
+             "(GOMAXPROCS, -debug=p, permuted arguments, sub-run-sets with test variants, same-name importers, generated code) compared per package "
+             "with a reference run; Scope.tla programs with @ignore comments in both files analysed with the files' position bases reversed.",
         note="Trusted: TLC, the gate in harness/internal/trace; the race detector is dynamic (DESIGN.md section 8).",
         technique="TLA+ model (Pipeline.tla) checked by TLC; TLC-generated schedules replayed into the real parallel driver (race build) + trace validation + black-box differential runs",
         design="5/C11"),
@@ -126,7 +130,8 @@ CHECKS = {
              "files the filter lets through; for 7 file classes x content flags x scan-tests x exclude-paths the diagnostics equal the property's "
              "expectation (nothing located in a skipped file, nothing influenced by it, test files never get TONL), and each named deviation (one "
              "reader forgetting the filter, filter evaluated on the first file only, TONL in tests) violates it. Every scenario is concretised and "
-             "analysed under its configuration (one harness process per configuration), a sample by the real binary.",
+             "analysed under its configuration (one harness process per configuration), a sample by the real binary, a second sample with the "
+             "configuration given by flags under a contrary environment, excluded directories also under go vet.",
         note="Trusted: TLC, lib/gen_files.py, the in-process driver (in-package test files are plain files there; the real drivers add test variants).",
         technique="TLA+ model (Files.tla) checked by TLC; replay of every (file class, content, configuration) scenario into the real analyzers",
         design="5/C14"),
